@@ -62,22 +62,23 @@ fn equal_dense(
 fn equal_sparse(
     lhs: &ArrayData,
     rhs: &ArrayData,
+    type_ids: &[i8],
+    fields: &UnionFields,
     lhs_start: usize,
     rhs_start: usize,
-    len: usize,
 ) -> bool {
-    lhs.child_data()
-        .iter()
-        .zip(rhs.child_data())
-        .all(|(lhs_values, rhs_values)| {
-            equal_range(
-                lhs_values,
-                rhs_values,
-                lhs_start + lhs.offset(),
-                rhs_start + rhs.offset(),
-                len,
-            )
-        })
+    // Only the child selected by the type id is part of the logical value of a slot:
+    // the other children hold unspecified data there.
+    type_ids.iter().enumerate().all(|(i, type_id)| {
+        let child_index = fields.iter().position(|(r, _)| r == *type_id).unwrap();
+        equal_range(
+            &lhs.child_data()[child_index],
+            &rhs.child_data()[child_index],
+            lhs_start + lhs.offset() + i,
+            rhs_start + rhs.offset() + i,
+            1,
+        )
+    })
 }
 
 pub(super) fn union_equal(
@@ -116,9 +117,19 @@ pub(super) fn union_equal(
                     rhs_fields,
                 )
         }
-        (DataType::Union(_, UnionMode::Sparse), DataType::Union(_, UnionMode::Sparse)) => {
+        (
+            DataType::Union(lhs_fields, UnionMode::Sparse),
+            DataType::Union(_, UnionMode::Sparse),
+        ) => {
             lhs_type_id_range == rhs_type_id_range
-                && equal_sparse(lhs, rhs, lhs_start, rhs_start, len)
+                && equal_sparse(
+                    lhs,
+                    rhs,
+                    lhs_type_id_range,
+                    lhs_fields,
+                    lhs_start,
+                    rhs_start,
+                )
         }
         _ => unimplemented!(
             "Logical equality not yet implemented between dense and sparse union arrays"
